@@ -144,6 +144,20 @@ class Built:
 
     def _pred(self, name, pid):
         log = self.log
+        if name.startswith("eqopt"):
+            # an Evaluatable condition: "the value equals the value of option K" (with / without default)
+            from .ref import cond_option
+
+            def maker(t):
+                target = canon(t)
+
+                def predicate(x):
+                    log.hit("pred", pid)
+                    return canon(x) == target
+
+                return predicate
+
+            return self.expr(cond_option(name)).apply(maker)
         p = pred(name)
 
         def predicate(x):
